@@ -33,6 +33,28 @@ _COMPS = (ast.ListComp, ast.SetComp, ast.GeneratorExp, ast.DictComp)
 _WRAP = {"list", "tuple", "iter", "tqdm", "set", "frozenset", "sorted"}
 
 
+def _cut_short(loop: ast.AST) -> bool:
+    """Does the ``for`` loop leave before its iterable is exhausted (a
+    ``break`` of its own, or a ``return``)?  Then what is done "for each"
+    element is only done up to that point."""
+    def rec(n: ast.AST, own: bool) -> bool:
+        for c in ast.iter_child_nodes(n):
+            if isinstance(c, (ast.FunctionDef, ast.AsyncFunctionDef,
+                              ast.Lambda, ast.ClassDef)):
+                continue
+            if isinstance(c, ast.Return):
+                return True
+            if isinstance(c, ast.Break) and own:
+                return True
+            if rec(c, own and not isinstance(c, (ast.For, ast.While,
+                                                 ast.AsyncFor))):
+                return True
+        return False
+    body = getattr(loop, "body", [])
+    return any(rec(ast.Module(body=[st], type_ignores=[]), True)
+               for st in body)
+
+
 class Roles:
     def __init__(self, ctx: "object", fi: FuncInfo) -> None:
         self.ctx = ctx
@@ -106,7 +128,8 @@ class Roles:
                         self.side += self.expand(c, True, env2, loc2)
                 return self._of(src.elt, loc2, env2, d)
             it = self._iter(val, stmt, env, d)
-            return f"each({it})" + self._index(tgt, name)
+            q = "upto" if kind == "for" and _cut_short(stmt) else "each"
+            return f"{q}({it})" + self._index(tgt, name)
         if kind == "assign" and val is not None:
             if isinstance(tgt, ast.Name) or tgt is None:
                 return self._of(val, stmt, env, d)
